@@ -230,6 +230,9 @@ def seed_protos(tier, which):
     elif which == "special":
         for label, m in gg.special_models():
             yield (label, ()), m
+    elif which == "nameclash":
+        for label, m in gg.gen_nameclash_family():
+            yield (label.split(":")[0], label), m
 
 
 def explore_seed(desc, proto, depth, which):
@@ -317,9 +320,10 @@ def plan(tier):
     n2 = sum(1 for _ in gg.gen_models(2))
     nd = sum(1 for _ in gg.gen_dup_family())
     no = sum(1 for _ in gg.gen_order_family())
+    nc = sum(1 for _ in gg.gen_nameclash_family())
     if tier == "quick":
-        return [("special", 4, 2), ("n1", n1, 2), ("n1_opset_pairs", 2 * n1, 1), ("dupfam", nd, 1), ("orderfam", no, 1), ("n2", n2, 1)]
-    return [("special", 4, 3), ("n1", n1, 3), ("n1_opset_pairs", 2 * n1, 2), ("dupfam", nd, 2), ("orderfam", no, 2), ("n2", n2, 2)]
+        return [("nameclash", nc, 1), ("special", 4, 2), ("n1", n1, 2), ("n1_opset_pairs", 2 * n1, 1), ("dupfam", nd, 1), ("orderfam", no, 1), ("n2", n2, 1)]
+    return [("nameclash", nc, 2), ("special", 4, 3), ("n1", n1, 3), ("n1_opset_pairs", 2 * n1, 2), ("dupfam", nd, 2), ("orderfam", no, 2), ("n2", n2, 2)]
 
 
 def run_exploration(tier):
@@ -526,6 +530,59 @@ def _composition_work(task):
                     found.setdefault(f"composition_differs_from_member_by_member_application|{label}", {"seed": desc, "path": [nm], "clause": "composition_differs_from_member_by_member_application", "detail": None})
                 if bool(res.modified) != bool(wmod):
                     found.setdefault(f"composition_modified_flag_differs|{label}", {"seed": desc, "path": [nm], "clause": "composition_modified_flag_differs", "detail": (res.modified, wmod)})
+        # (c) compositions whose members are themselves functionalized passes, and three-member pipelines that start
+        #     with a validating pass (in place, declares that it does not change its input)
+        F = ir.passes.functionalize
+        for j, (a, b) in enumerate(pairs):
+            if (j + 3 * i) % (3 * pair_stride):
+                continue
+            try:
+                want1, mod1 = _direct(pb, [a, b])
+                want2, mod2 = _direct(pb, [a, b], rounds=3, early_stop=True)
+                want_c, mod_c = _direct(pb, ["Checker", a, b])
+                want_c2, mod_c2 = _direct(pb, ["Checker", a, b], rounds=3, early_stop=True)
+            except Exception:  # noqa: BLE001
+                continue
+            A, B, C = PASS_INDEX[a], PASS_INDEX[b], PASS_INDEX["Checker"]
+            members = [
+                ("F,p", lambda: [F(A()), B()], 2), ("p,F", lambda: [A(), F(B())], 2), ("F,F", lambda: [F(A()), F(B())], 2),
+                ("Checker,p,F", lambda: [C(), A(), F(B())], 3), ("Checker,F,p", lambda: [C(), F(A()), B()], 3), ("Checker,p,p", lambda: [C(), A(), B()], 3),
+            ]
+            for mlabel, mk_members, k in members:
+                for wlabel, wrap, early in (
+                    ("Sequential", lambda ms: ir.passes.Sequential(*ms), False),
+                    ("PassManager(steps=3,early_stop)", lambda ms: ir.passes.PassManager(ms, steps=3, early_stop=True), True),
+                    ("functionalize(Sequential)", lambda ms: F(ir.passes.Sequential(*ms)), False),
+                    ("functionalize(PassManager(steps=3,early_stop))", lambda ms: F(ir.passes.PassManager(ms, steps=3, early_stop=True)), True),
+                ):
+                    want, wmod = {(2, False): (want1, mod1), (2, True): (want2, mod2), (3, False): (want_c, mod_c), (3, True): (want_c2, mod_c2)}[(k, early)]
+                    model = ir.from_proto(onnx.ModelProto.FromString(pb))
+                    before = c03.full_snapshot(model)
+                    comp = wrap(mk_members())
+                    n += 1
+                    label = f"{wlabel}<{mlabel}>"
+                    nm = f"{label}[{a},{b}]"
+                    try:
+                        res = comp(model)
+                    except Exception as e:  # noqa: BLE001
+                        found.setdefault(f"composition_raises_where_its_members_do_not|{label}|{type(e).__name__}", {"seed": desc, "path": [nm], "clause": "composition_raises_where_its_members_do_not", "detail": f"{type(e).__name__}: {str(e)[:120]}"})
+                        continue
+                    if comp.in_place and res.model is not model:
+                        found.setdefault(f"in_place_composition_returned_another_object|{label}", {"seed": desc, "path": [nm], "clause": "in_place_composition_returned_another_object", "detail": None})
+                    if not comp.in_place and res.model is model:
+                        found.setdefault(f"functional_composition_returned_its_input|{label}", {"seed": desc, "path": [nm], "clause": "functional_composition_returned_its_input", "detail": None})
+                    if (wlabel.startswith("functionalize") or (not comp.in_place and not comp.changes_input)) and c03.full_snapshot(model) != before:
+                        clause = "functionalized_composition_changed_its_input" if wlabel.startswith("functionalize") else "composition_declares_input_untouched_but_changed_it"
+                        found.setdefault(f"{clause}|{label}", {"seed": desc, "path": [nm], "clause": clause, "detail": None})
+                    try:
+                        got = ser(ir.to_proto(res.model))
+                    except Exception as e:  # noqa: BLE001
+                        found.setdefault(f"composition_result_not_serializable|{label}", {"seed": desc, "path": [nm], "clause": "composition_result_not_serializable", "detail": f"{type(e).__name__}: {str(e)[:120]}"})
+                        continue
+                    if got != want:
+                        found.setdefault(f"composition_differs_from_member_by_member_application|{label}", {"seed": desc, "path": [nm], "clause": "composition_differs_from_member_by_member_application", "detail": None})
+                    if bool(res.modified) != bool(wmod):
+                        found.setdefault(f"composition_modified_flag_differs|{label}", {"seed": desc, "path": [nm], "clause": "composition_modified_flag_differs", "detail": (res.modified, wmod)})
     return n, found
 
 
